@@ -354,13 +354,23 @@ def apply_op(reqs, op):
     return None
 
 
-def run_real(cfg, env, stream, ops):
-    """returns (answers, tabs token)"""
+def wipe_caches(rq):
+    """what makes a request brand-new again: drop every cache entry (not the body state)"""
+    env = rq.environ
+    for k in [k for k in env if k.startswith(CACHE) and k not in BODY_KEYS]:
+        dict.__delitem__(env, k)
+
+
+def run_real(cfg, env, stream, ops, nocache=False):
+    """returns (answers, tabs token); `nocache`: the cache entries are wiped before every read, which turns the
+    real request into the cache-free reference machine (`envcache spec`)"""
     rec = Recorder()
     reqs = [new_request(cfg, env, stream)]
     outs = []
     with Patched(rec):
         for op in ops:
+            if nocache and op[0] == 'r':
+                wipe_caches(reqs[op[1]])
             r = core.with_timeout(lambda: apply_op(reqs, op), 10)
             if r is not None:
                 outs.append(r)
@@ -611,6 +621,11 @@ def corr_stream(rng, n, check, stats):
         outs, tabs = run_real(cfg, env, stream, ops)
         out.append((line_of(cfg, tabs, env, stream, ops), answer_of(outs),
                     dict(kind='envcache', **pack(cfg, env, stream, ops))))
+        if rng.random() < .35:      # the same sequence on the reference machine: real code with its caches wiped
+            outs2, tabs2 = run_real(cfg, env, stream, ops, nocache=True)
+            out.append((line_of(cfg, tabs2, env, stream, ops, 'spec'), answer_of(outs2),
+                        dict(kind='envcache', spec=True, **pack(cfg, env, stream, ops))))
+            bump(stats, 'envcache:spec-cases')
         bump(stats, 'envcache:cases')
         bump(stats, 'envcache:ops', len(ops))
         for o in ops:
